@@ -370,6 +370,10 @@ type c07Sys struct {
 	pods        []c07PodRef
 	excused     map[c07Dev]bool
 	taint       map[string]bool // external-writer event kinds seen in this history
+	// staleAnn: the device-allocated annotation a failed binding attempt left on the (still unassigned) pod object in the
+	// API: PreBind had persisted it, Bind failed, Unreserve rolled the ledger back. The next informer update of that pod
+	// carries it on its OLD object (unassigned + stale annotation -> bound + new annotation, coalesced): seed C07-7
+	staleAnn map[int]string
 
 	counts map[string]int64 // flushed into res once per execution (end of Invariants)
 }
@@ -411,7 +415,7 @@ func c07New(cfg *c07Cfg, ops []c07Op, res *mc.Result) *c07Sys {
 		node:    &corev1.Node{ObjectMeta: metav1.ObjectMeta{Name: c07Node}},
 		scorer:  cfg.scorerObj,
 		pods:    make([]c07PodRef, cfg.pods),
-		excused: map[c07Dev]bool{}, taint: map[string]bool{}}
+		excused: map[c07Dev]bool{}, taint: map[string]bool{}, staleAnn: map[int]string{}}
 	s.publish(0, true)
 	return s
 }
@@ -951,6 +955,9 @@ func (s *c07Sys) refString() string {
 		if s.pods[i].ghost != nil {
 			fmt.Fprintf(&sb, " p%d(old incarnation, delete not yet delivered):%s", i, c07FmtInsts(s.pods[i].ghost.insts))
 		}
+		if a := s.staleAnn[i]; a != "" {
+			fmt.Fprintf(&sb, " p%d(stale annotation of a failed bind):%s", i, a)
+		}
 	}
 	return sb.String()
 }
@@ -1005,6 +1012,7 @@ func (s *c07Sys) Apply(opi int, check bool) (bool, []mc.Violation) {
 			}
 		}
 		s.cache.onPodDelete(s.podObj(op.a, nil, true, p.ann, phase))
+		delete(s.staleAnn, op.a)
 		*p = c07PodRef{gen: p.gen}
 	case c07OpTerminate:
 		p := &s.pods[op.a]
@@ -1027,10 +1035,14 @@ func (s *c07Sys) Apply(opi int, check bool) (bool, []mc.Violation) {
 		if p.state != c07Live || p.ghost != nil {
 			return false, nil
 		}
-		s.cache.onPodUpdate(s.podObj(op.a, nil, false, "", corev1.PodPending), s.podObj(op.a, nil, true, p.ann, corev1.PodPending))
+		s.cache.onPodUpdate(s.podObj(op.a, nil, false, s.staleAnn[op.a], corev1.PodPending), s.podObj(op.a, nil, true, p.ann, corev1.PodPending))
 		if check {
 			s.count("duplicate_adds", 1)
+			if s.staleAnn[op.a] != "" && s.staleAnn[op.a] != p.ann {
+				s.count("bound_updates_whose_old_object_carries_a_stale_annotation", 1)
+			}
 		}
+		delete(s.staleAnn, op.a)
 	case c07OpResync:
 		p := &s.pods[op.a]
 		if p.state != c07Live || p.ghost != nil {
@@ -1053,6 +1065,7 @@ func (s *c07Sys) Apply(opi int, check bool) (bool, []mc.Violation) {
 		nd.lock.Lock()
 		nd.updateCacheUsed(a, s.podObj(op.a, nil, false, "", corev1.PodPending), false)
 		nd.lock.Unlock()
+		s.staleAnn[op.a] = p.ann // PreBind had patched it onto the pod before the bind failed
 		*p = c07PodRef{gen: p.gen, ghost: p.ghost}
 	case c07OpRefresh:
 		if op.a == s.variant && !s.invalidated {
@@ -1480,6 +1493,9 @@ func (s *c07Sys) Key() string {
 		fmt.Fprintf(&sb, "p%d:%d:g%d:%s", i, s.pods[i].state, s.pods[i].gen, c07FmtInsts(s.pods[i].insts))
 		if g := s.pods[i].ghost; g != nil {
 			fmt.Fprintf(&sb, ":ghost:%s", c07FmtInsts(g.insts))
+		}
+		if a := s.staleAnn[i]; a != "" {
+			fmt.Fprintf(&sb, ":stale:%s", a)
 		}
 		sb.WriteString("|")
 	}
